@@ -24,7 +24,7 @@ REQUIRED = ['mon.align_noise_free', 'mon.align_noisy', 'mon.align_mirror_cases',
 
 
 def cases(tier, seed):
-    n = 16 if tier == 'quick' else 400
+    n = 48 if tier == 'quick' else 400
     return [{'seed': seed * 100003 + i, 'n': 150} for i in range(n)]
 
 
